@@ -1455,7 +1455,7 @@ theorem step_evolves (q : Quirks) (s : Proto) (inp : Inp) : Evolves s (step q s 
     | dropped =>
       simp only
       split
-      · exact .same (hs.trans' (Same.trans' (s1 := { s1 with atts := upd s1.atts a (setRange lo hi (fun sl => if sl == .unlaunched then .terminated else sl)) })
+      · exact .same (hs.trans' (Same.trans' (s1 := { s1 with atts := upd s1.atts a (setRange lo hi (fun sl => if sl == .unlaunched || sl == .pending then .terminated else sl)) })
           ⟨Nat.le_refl _, Or.inr (upd_keeps _ _ _ (setRange_keeps _ _ _))⟩ (cp_same _ _)))
       · exact .same hs
     | lost => exact .same hs
@@ -1505,7 +1505,7 @@ theorem step_evolves (q : Quirks) (s : Proto) (inp : Inp) : Evolves s (step q s 
     all_goals first
       | exact .same (Same.rfl' s)
       | exact .same ⟨Nat.le_refl _, Or.inl rfl⟩
-      | (refine .same (Same.trans' (s1 := { s with ended := some false, atts := s.atts.map (fun x => if x.seen then { x with terminated := true } else x) }) ⟨Nat.le_refl _, Or.inr ?_⟩ (cp_same _ _))
+      | (refine .same (Same.trans' (s1 := { s with ended := some false, atts := s.atts.map (fun x => if x.seen then { x with terminated := true, fullRange := true } else x) }) ⟨Nat.le_refl _, Or.inr ?_⟩ (cp_same _ _))
          apply All2.map
          intro x
          split
